@@ -2,8 +2,8 @@ package checks
 
 func init() {
 	Registry["C17"] = func(c *Ctx) {
-		c.R.Rule = "every string of <=N tokens over {//,/,:,...,.,a,b,ab,all} is parsed as a label (4 current packages) and as a pattern (3 current packages) by the real label API; patterns are matched against a 24-label universe. A case is non-trivial when the documentation defines its meaning (then acceptance, resolution and the matched set are compared with a reference written from docs/reference/labels.md); all other strings are checked for no panic and for the print/re-parse invariants only."
-		c.R.Assume("reference parser/matcher written from docs/reference/labels.md is the specification", "label universe: packages {'',a,a/b,ab,a/bb,b} x names {a,b,ab,all}")
+		c.R.Rule = "every string of <=N tokens over {//,/,:,...,.,a,b,ab,all} is parsed as a label (4 current packages) and as a pattern (3 current packages) by the real label API; patterns are matched against a 36-label universe. A case is non-trivial when the documentation defines its meaning (then acceptance, resolution and the matched set are compared with a reference written from docs/reference/labels.md); all other strings are checked for no panic and for the print/re-parse invariants only."
+		c.R.Assume("reference parser/matcher written from docs/reference/labels.md is the specification", "label universe: packages {'',a,a/b,ab,a/bb,b,ab/b,ab/a/b,b/a} x names {a,b,ab,all}")
 		simpleHarness(c, "c17", "c17", nil, nil, 1)
 	}
 }
